@@ -101,6 +101,8 @@ def main():
                                                  "note": "affine*affine composed directly (A1*A2, A1*t2+t1) instead of through the (N+1)x(N+1) embedding - correct"}
     index["benign_array_assign_reuse_buffer"] = {"patch": "mutants/benign_array_assign_reuse_buffer.patch", "properties": [], "silent": ["C12", "C15", "C05"],
                                                  "note": "array copy assignment keeps its allocation when it exists and has the right size, and always updates the size - the correct version of seeds C12/C12b"}
+    index["benign_hilbert_thread_local_memo"] = {"patch": "mutants/benign_hilbert_thread_local_memo.patch", "properties": [], "silent": ["C16", "C14", "C01", "C05"],
+                                                 "note": "per-thread (thread_local) memo of the last Hilbert index - the correct version of seed C16"}
     # seeded changes delivered by independent sub-agents (seeded/<id>/meta.json carries "check_with")
     import glob
     for mp in sorted(glob.glob(os.path.join(V, "seeded/*/meta.json"))):
